@@ -94,6 +94,14 @@ def cases(rng, tier):
                 yield ("vuspec %s %d %d" % (hexs(bs), L, off), "vu-alpha%d-spec" % L)
             else:
                 yield from vu(bs, "vu-alpha%d" % L)
+    # --- every fifth byte behind four full continuation bytes (the bits that do not fit in 32: any of them is overflow),
+    # and every sixth
+    for head in ([0x80] * 4, [0xff] * 4, [0x81, 0x80, 0x80, 0x80], [0xff, 0xff, 0xff, 0x8f]):
+        for x in range(256):
+            for tail in ([], [0x00], [0x05], [0x80, 0x01]):
+                bs = head + [x] + tail
+                yield ("vu %s %d 0" % (hexs(bs), len(bs)), "vu-fifth-byte")
+                yield ("vuspec %s %d 0" % (hexs(bs), len(bs)), "vu-fifth-byte-spec")
     # --- varuints inside long buffers: the decoder's bookkeeping (bytes left, bit budget) at distances from the end
     # of the buffer around multiples of 256 and 65536, and at large offsets
     for rep in range(4000 if thorough else 400):
